@@ -149,7 +149,20 @@ func lazy(c *harness.Ctx) {
 		})
 	}
 	c.Sample(desc)
-	s.Run(5000)
+	// quiescent loads after every task has finished (taken inside the run: on back end B the map may hold
+	// primitives that belong to the run's bubble)
+	type finalLoad struct {
+		v1, v2   interface{}
+		ok1, ok2 bool
+	}
+	var finals [nKeys]finalLoad
+	s.RunThen(5000, func() {
+		for k := 0; k < nKeys; k++ {
+			f := &finals[k]
+			f.v1, f.ok1 = m.Load(k)
+			f.v2, f.ok2 = m.Load(k)
+		}
+	})
 	c.Case(desc)
 	if s.Dead {
 		c.Fail("C18", "deadlock", "deadlock", "no task enabled, unfinished: %s; workload %s", s.DeadInfo, desc)
@@ -208,8 +221,7 @@ func lazy(c *harness.Ctx) {
 	}
 	// after quiescence: Load agrees with some linearization — check final value stability
 	for k := 0; k < nKeys; k++ {
-		v1, ok1 := m.Load(k)
-		v2, ok2 := m.Load(k)
+		v1, ok1, v2, ok2 := finals[k].v1, finals[k].ok1, finals[k].v2, finals[k].ok2
 		if ok1 != ok2 || v1 != v2 {
 			c.Fail("C18", "final-unstable", "final-unstable", "two quiescent loads of key %d differ: %v,%v vs %v,%v", k, v1, ok1, v2, ok2)
 		}
